@@ -22,7 +22,7 @@ ASSUMPTIONS = ["the real TokenMatcher satisfies the matcher contract MC1-MC6 (de
 
 def bounds(tier):
     return {"quick": "z3: all 42 states x 2^14 vectors x 4 look-ahead outcomes (unbounded length by induction); CrossHair: 120 prefixes x K=1 symbolic line (K=2 after every 8th pending-tag prefix), 17 kinds",
-            "thorough": "z3 as quick; CrossHair: 120 prefixes x K=2 (K=3 after a pending tag line)"}[tier]
+            "thorough": "z3 as quick; CrossHair: 120 prefixes x K=2 (K=3 after every 8th pending-tag prefix)"}[tier]
 
 
 def solver_part(tier):
@@ -57,7 +57,7 @@ def conditions(tier):
     if tier == "quick":
         cs = _p.pdrv_conditions(k_all=1, k_tags=2, stop_too=False, tag_stride=8)
     else:
-        cs = _p.pdrv_conditions(k_all=2, k_tags=3, stop_too=False)
+        cs = _p.pdrv_conditions(k_all=2, k_tags=3, k_tags_rest=2, tag_stride=8, stop_too=False)
     cs.append(Cond("harness.pdrv", "twin_never_accepts", {"prefix": [4]}, T=120, expect="cex"))
     cs.append(Cond("harness.pdrv", "twin_never_rejects", {"prefix": [4]}, T=120, expect="cex"))
     return cs
